@@ -648,6 +648,18 @@ let rec exec (toks : string list) (side : string list) (impl_result : string) : 
          | Some (s', l) -> g.sk <- Some s';
            xstr (List.fold_left (fun acc (v, c) -> M.fadd acc (M.fmul (M.q2f v) (M.q2f c))) (f64_of_hex "0000000000000000") l)
        end)
+  (* NewDDSketchWithExactSummaryStatisticsFromData: refused iff emptiness of the sketch and count = 0 of the statistics disagree; the result wraps
+     the very sketch and statistics objects it was given, so the model stops following those two registers (no aliasing in a functional model) *)
+  | ["kfromdata"; k; k0; t] ->
+    let (g0, s0) = get_sk k0 in
+    let st = Hashtbl.find statsr t in
+    if s0.M.sk_stats <> None then raise Unsupported else
+    if M.sk_is_empty s0 <> M.feq (M.su_count st) (f64_of_hex "0000000000000000") then "err other"
+    else begin
+      let g = new_reg g0.mn g0.mx (Some { s0 with M.sk_stats = Some st }) in
+      g.gm <- g0.gm; g.tbl <- Hashtbl.copy g0.tbl; Hashtbl.replace sketches k g;
+      g0.sk <- None; Hashtbl.remove statsr t; "ok"
+    end
   | ["kforeach"; k; n] ->
     let (g, s) = get_sk k in
     absorb_vals g side;
